@@ -52,7 +52,7 @@ impl StainingTemplate {
             // read the value offsets
             let mut ends = [0u16; 5];
             for end in &mut ends {
-                *end = cursor.read_le::<u16>().unwrap() * 2;
+                *end = cursor.read_le::<u16>().ok()?.wrapping_mul(2);
             }
 
             /*let new_offset = (offset + 10) as u64;
